@@ -471,6 +471,10 @@ func expandDefText(fn *Fn, info *types.Info, e ast.Expr) string {
 					if d := singleDef(fn, info, o); d != nil {
 						return rec(d, depth+1)
 					}
+					// first result of a tuple definition `x, err := f()`
+					if d := singleDefTuple(fn, info, o); d != nil {
+						return rec(d, depth+1)
+					}
 				}
 			}
 		case *ast.CallExpr:
@@ -478,7 +482,13 @@ func expandDefText(fn *Fn, info *types.Info, e ast.Expr) string {
 			for _, a := range v.Args {
 				args = append(args, rec(a, depth))
 			}
-			return canon(v.Fun) + "(" + strings.Join(args, ",") + ")"
+			fun := canon(v.Fun)
+			if sel, ok := unparen(v.Fun).(*ast.SelectorExpr); ok {
+				if _, isPkg := info.Uses[identOf(sel.X)].(*types.PkgName); !isPkg {
+					fun = rec(sel.X, depth) + "." + sel.Sel.Name
+				}
+			}
+			return fun + "(" + strings.Join(args, ",") + ")"
 		case *ast.SelectorExpr:
 			return rec(v.X, depth) + "." + v.Sel.Name
 		case *ast.StarExpr:
@@ -489,4 +499,9 @@ func expandDefText(fn *Fn, info *types.Info, e ast.Expr) string {
 		return canon(e)
 	}
 	return rec(e, 0)
+}
+
+func identOf(e ast.Expr) *ast.Ident {
+	id, _ := unparen(e).(*ast.Ident)
+	return id
 }
